@@ -69,3 +69,5 @@ func vfSameSeqBits(a, b Sequence) bool {
 func vfEqF(a, b float64) bool {
 	return a == b || (a != a && b != b)
 }
+
+func vfBitsOf(f float64) uint64 { return math.Float64bits(f) }
